@@ -35,6 +35,9 @@ type WGlyph struct {
 	Seac       *WSeac
 	// Raw, if non-nil, is used as the plain charstring as it is (hostile inputs)
 	Raw []byte
+	// SameAs names an earlier glyph whose charstring bytes are used for this
+	// glyph as they are (a second name for the same outline: `A` and `A.alt`)
+	SameAs string
 }
 
 // WCmd is a path command: 'M', 'L', 'C', 'Z' with numerators.
@@ -507,6 +510,10 @@ func RenderType1(rng *rand.Rand, f *WFont, lay *WLayout) []byte {
 	cs := map[string][]byte{}
 	for _, g := range f.Glyphs {
 		names = append(names, g.Name)
+		if b, ok := cs[g.SameAs]; ok && g.SameAs != "" {
+			cs[g.Name] = b
+			continue
+		}
 		cs[g.Name] = EncodeGlyph(rng, g, lay)
 	}
 	if rng.IntN(2) == 0 {
@@ -654,8 +661,22 @@ func RenderType1(rng *rand.Rand, f *WFont, lay *WLayout) []byte {
 	clear.WriteString("currentfile eexec" + []string{"\n", "\r", "\r\n", " "}[rng.IntN(4)])
 	priv.WriteString("mark currentfile closefile\n")
 	var cipher []byte
+	edgeStart := lay.Container != "pfa" && rng.IntN(4) == 0
 	for {
 		lead := []byte{byte(rng.IntN(256)), byte(rng.IntN(256)), byte(rng.IntN(256)), byte(rng.IntN(256))}
+		if edgeStart {
+			// random bytes whose ciphertext looks as much like hexadecimal text as
+			// the book allows: digits and white space, with one byte deciding
+			const al = "0123456789abcdefABCDEF0123456789abcdef \t\r\n \n"
+			target := make([]byte, 4)
+			for i := range target {
+				target[i] = al[rng.IntN(len(al))]
+			}
+			if rng.IntN(3) == 0 {
+				target[rng.IntN(4)] = []byte{'g', 'G', '/', ':', '@', '`', 0, 0x80, 0xff, 'x'}[rng.IntN(10)]
+			}
+			lead = Decrypt(target, EexecKey)
+		}
 		cipher = Encrypt(append(lead, priv.Bytes()...), EexecKey, nil)
 		if lay.Container == "pfa" || LegalBinaryStart(cipher) {
 			break
